@@ -32,6 +32,8 @@ pub enum Entry {
     NotADir,
     /// relative path (to the harness's cwd) of a directory with a runnable candidate
     RelRunnable,
+    /// an empty sub-directory of the NEXT entry's directory (PATH=A/Bin:A)
+    InsideNext,
 }
 
 #[derive(Clone, Copy, Debug, PartialEq, Serialize, Deserialize)]
@@ -92,7 +94,24 @@ pub fn check_case(ctx: &Ctx, case: &PathCase, rep: &mut CaseReport) -> CaseResul
         } else {
             root.join(format!("D{}", i))
         };
+        let dir_of = |j: usize| -> PathBuf {
+            if case.non_utf8 {
+                let mut n = format!("D{}", j).into_bytes();
+                n.push(0xff);
+                n.push(b'x');
+                root.join(OsStr::from_bytes(&n))
+            } else {
+                root.join(format!("D{}", j))
+            }
+        };
         match e {
+            Entry::InsideNext => {
+                let usable = matches!(case.entries.get(i + 1), Some(Entry::Missing | Entry::EmptyDir | Entry::NoExec | Entry::SubDir | Entry::Text | Entry::Runnable));
+                let dd = if usable { dir_of(i + 1).join("Bin") } else { d.clone() };
+                std::fs::create_dir_all(&dd).unwrap();
+                path_strs.push(dd.clone().into_os_string());
+                model.push(Some((dd, Some(libc::ENOENT))));
+            }
             Entry::Missing => {
                 path_strs.push(d.clone().into_os_string());
                 model.push(Some((d, Some(libc::ENOENT))));
@@ -343,7 +362,7 @@ pub fn check_case(ctx: &Ctx, case: &PathCase, rep: &mut CaseReport) -> CaseResul
 pub fn case_strategy() -> impl Strategy<Value = PathCase> {
     let entry = prop_oneof![
         3 => Just(Entry::Missing), 3 => Just(Entry::EmptyDir), 3 => Just(Entry::NoExec), 2 => Just(Entry::SubDir), 2 => Just(Entry::Text),
-        4 => Just(Entry::Runnable), 4 => Just(Entry::Empty), 2 => any::<u8>().prop_map(Entry::Dup), 1 => Just(Entry::TooLong), 1 => Just(Entry::NotADir), 1 => Just(Entry::RelRunnable)
+        4 => Just(Entry::Runnable), 4 => Just(Entry::Empty), 2 => any::<u8>().prop_map(Entry::Dup), 1 => Just(Entry::TooLong), 1 => Just(Entry::NotADir), 1 => Just(Entry::RelRunnable), 2 => Just(Entry::InsideNext)
     ];
     let name = prop_oneof![
         4 => "[a-z][a-z0-9_.-]{0,10}",
